@@ -730,7 +730,7 @@ func (c *Ctx) ruleOptsTable(rule string, names []string) {
 
 func runC07(c *Ctx) {
 	p, r := c.P, c.R
-	r.Explanation = "Decides the overwrite-policy clauses structurally: both option constructors store exactly the two valid policies and reject everything else without storing (decision table over the policy value); RegisterNode cannot reach its map assignment when the EXISTING entry's policy is DenyOverwrite, the new entry carries the option's policy and, on overwrite, the old count; RegisterPipeline tests the policy of the existing entry whose key equals def.PipelineID in the graph of def.EventType, cannot reach Store when it is DenyOverwrite, and the new entry carries the option's policy; a successful call performs exactly one Store of a fresh registration whose root was linked by this very call (with C04.immutable: no in-place edits of published lists — the structural premise of 'each Send sees exactly one version'); policies live only inside the entries that removal deletes. What a concurrent Send observes during the swap is sync.Map semantics (A4). C07.defaults: both policies default to AllowOverwrite and getOpts applies every non-nil option of the whole list to the one defaults-initialised struct, returning it or the option error. C07.section: validation and commit in one critical section."
+	r.Explanation = "Decides the overwrite-policy clauses structurally: both option constructors store exactly the two valid policies and reject everything else without storing (decision table over the policy value); RegisterNode cannot reach its map assignment when the EXISTING entry's policy is DenyOverwrite, the new entry carries the option's policy and, on overwrite, the old count; RegisterPipeline tests the policy of the existing entry whose key equals def.PipelineID in the graph of def.EventType, cannot reach Store when it is DenyOverwrite, and the new entry carries the option's policy; a successful call performs exactly one Store of a fresh registration whose root was linked by this very call (with C04.immutable: no in-place edits of published lists — the structural premise of 'each Send sees exactly one version'); policies live only inside the entries that removal deletes. What a concurrent Send observes during the swap is sync.Map semantics (A4). C07.defaults: both policies default to AllowOverwrite and getOpts applies every non-nil option of the whole list to the one defaults-initialised struct, returning it or the option error. C07.section: validation and commit in one critical section. C07.range / C07.copy: the pipeline set is read through graphMap.Range over the one sync.Map; no second copy refreshed from a reader's side."
 	r.NotDecided = []string{"what a concurrent Send observes while the Store happens (sync.Map semantics, A4)"}
 	_ = p
 	c.ruleOptionDefaults()
@@ -747,6 +747,11 @@ func runC07(c *Ctx) {
 	c.ruleRegisterNode("C07.node")
 	// --- C07.pipeline
 	c.rulePolicySource("C07.pipeline")
+	// "only by the new one once the overwriting call has returned": Send, Reopen and the policy look-up all read the
+	// pipeline set through graphMap.Range — it ranges the one sync.Map (C01.range), and no second copy of the set is
+	// refreshed from a reader's side (C04.copy)
+	c.ruleGraphMap("C07.range", "")
+	c.rulePipelineCopies("C07.copy")
 	c.ruleOneSection("C07.section")
 	// --- C07.swap (shares the commit rule: exactly one Store of a fresh registration linked by this call)
 	c.ruleCommit()
